@@ -500,7 +500,7 @@ func (sc *scen) launchAttempt(phase string, i int, judged bool, delay time.Durat
 			if errors.Is(err, syscall.ECONNREFUSED) {
 				a.result = "refused"
 			} else {
-				a.result = "dial-error: " + err.Error()
+				a.result = "dial-error: " + errKind(err)
 			}
 			return
 		}
@@ -778,11 +778,17 @@ func (sc *scen) run() (out *outcome) {
 
 		// ---- (2) the listening socket is closed
 		c, err := net.DialTimeout("tcp", sc.addr, 3*time.Second)
+		for try := 0; try < 3 && err != nil && !errors.Is(err, syscall.ECONNREFUSED); try++ {
+			// e.g. a reset from a socket that was closing: ask again
+			o.add("listener_probe_error: "+errKind(err), 1)
+			time.Sleep(10 * time.Millisecond)
+			c, err = net.DialTimeout("tcp", sc.addr, 3*time.Second)
+		}
 		switch {
 		case err != nil && errors.Is(err, syscall.ECONNREFUSED):
 			o.add("listener_refused_after_return", 1)
 		case err != nil:
-			o.add("listener_probe_other_error", 1)
+			o.add("listener_probe_undecided", 1)
 		default:
 			c.Close()
 			// somebody listens on the port: the proxy's own socket, or a reused port?
@@ -894,6 +900,7 @@ func (sc *scen) run() (out *outcome) {
 			o.add("post_cancel_refused", 1)
 		case strings.HasPrefix(a.result, "dial-error"):
 			o.add("post_cancel_dial_error", 1)
+			o.add("post_cancel_"+a.result, 1)
 		default:
 			o.add("post_cancel_attempts_while_listener_open", 1)
 			if recs == 0 {
@@ -907,6 +914,19 @@ func (sc *scen) run() (out *outcome) {
 		}
 	}
 	return
+}
+
+// errKind strips addresses from a dial error.
+func errKind(err error) string {
+	var se syscall.Errno
+	if errors.As(err, &se) {
+		return se.Error()
+	}
+	var ne net.Error
+	if errors.As(err, &ne) && ne.Timeout() {
+		return "timeout"
+	}
+	return "other"
 }
 
 func sessionsOf(es []*exchange) []*rig.Session {
